@@ -147,6 +147,9 @@ func (e *Env) Since(mark int) []Call { return append([]Call(nil), e.Log[mark:]..
 func (e *Env) StateKey() string {
 	var ks []string
 	for k, v := range e.Counts {
+		if v > 4 {
+			v = 4 // the corpus' functions saturate their counters at 3
+		}
 		ks = append(ks, fmt.Sprintf("c:%s=%d", k, v))
 	}
 	for k, v := range e.Vars {
